@@ -145,13 +145,24 @@ Record vcase := {
   v_M : nat; v_dt : Qc; v_t0 : Qc; v_nodes : list Qc;
   v_Q : list (list Qc); v_QQ : list (list Qc); v_Qx : list (list Qc); v_QT : list (list Qc);
   v_k : Qc; v_p : list Qc; v_v : list Qc; v_f : list Qc;
+  v_w : list Qc; v_qQ : list Qc;                    (* coll.weights, sweeper.qQ; index 0 unused *)
+  v_taup : list (option Qc); v_tauv : list (option Qc);   (* index 0 unused *)
+  v_rin : bool; v_dcu : bool;
 }.
+(* observables: new positions, velocities, accelerations at nodes 1..M; integrate() of the new state (pos, vel parts);
+   compute_end_point() of the new state (pos, vel) *)
 Definition run_verlet (C : vcase) : list Qc :=
   let cst := fun (l : list Qc) (m : nat) => memo 1 (fun _ => nthq l m) in
+  let otau := fun (l : list (option Qc)) (m : nat) => option_map (fun q => memo 1 (fun _ => q)) (nth m l None) in
   let fe := fun (_ : Qc) (pos _vel : nat -> Qc) => memo 1 (fun x => - (v_k C) * pos x) in
   let '(pn, vn, fn) := verlet_update 0 Qcplus Qcmult Qcminus (v_M C) (v_dt C) (v_t0 C) (nthq (v_nodes C))
                           (mat (v_Q C)) (mat (v_QQ C)) (mat (v_Qx C)) (mat (v_QT C)) fe
-                          (cst (v_p C)) (cst (v_v C)) (cst (v_f C)) (fun _ => None) (fun _ => None) in
-  map (fun m => pn m 0%nat) (seq 1 (v_M C)) ++ map (fun m => vn m 0%nat) (seq 1 (v_M C)) ++ map (fun m => fn m 0%nat) (seq 1 (v_M C)).
+                          (cst (v_p C)) (cst (v_v C)) (cst (v_f C)) (otau (v_taup C)) (otau (v_tauv C)) in
+  let e := verlet_end_point Qcplus Qcmult (v_M C) (v_dt C) (nthq (v_w C)) (nthq (v_qQ C)) (v_rin C) (v_dcu C)
+                            pn vn fn (otau (v_taup C)) (otau (v_tauv C)) in
+  map (fun m => pn m 0%nat) (seq 1 (v_M C)) ++ map (fun m => vn m 0%nat) (seq 1 (v_M C)) ++ map (fun m => fn m 0%nat) (seq 1 (v_M C))
+  ++ map (fun m => vint_pos 0 Qcplus Qcmult (v_M C) (v_dt C) (mat (v_Q C)) (mat (v_QQ C)) (vn 0%nat) fn m 0%nat) (seq 1 (v_M C))
+  ++ map (fun m => vint_vel 0 Qcplus Qcmult (v_M C) (v_dt C) (mat (v_Q C)) fn m 0%nat) (seq 1 (v_M C))
+  ++ [fst e 0%nat; snd e 0%nat].
 Definition check_verlet_case (ce : vcase * list Qc) : Z :=
   match first_diff 0 (run_verlet (fst ce)) (snd ce) with None => (-1)%Z | Some i => Z.of_nat i end.
